@@ -12,7 +12,7 @@ CLAIMS["C07"] = (
 
 CLAIMS["C04"] = (
     "'No normal exit without the checksum comparison' obligations, proved on every path of the real functions: SignatureHeader._read (start-header CRC over bytes 12..31), calculate_crc32 (= CRC32 for every block size), Worker._extract_single and Worker._check (every delivered or skipped non-empty member: regular, symlink, junction), Worker.decompress (folder CRC consulted at folder end; delivers exactly the declared size), SevenZipFile.test/_read_digest (each defined pack digest compared at the right offset over exactly its pack size).",
-    "Assumed: CRC32 as an uninterpreted function with the streaming homomorphism; its detection power (what a mismatch reveals) and the codecs' behaviour on damaged input are assumptions; orchestration methods are verified in abstract mode (opaque objects, stable-attribute and frame assumptions listed in the evidence). Bit-flip campaigns are fault enumeration (another family) and are not claimed.",
+    "Assumed: CRC32 as an uninterpreted function with the streaming homomorphism; its detection power (what a mismatch reveals) and the codecs' behaviour on damaged input are assumptions; orchestration methods are verified in abstract mode (opaque objects, stable-attribute and frame assumptions listed in the evidence). Bit-flip campaigns are fault enumeration (another family) and are not claimed; one BOUNDED stand-in (labelled bounded) alters one byte of a CRC-protected member in 400 archives from an independent writer and requires an error.",
     "DESIGN.md 7 (C04)",
 )
 CLAIMS["C09"] = (
@@ -22,13 +22,13 @@ CLAIMS["C09"] = (
 )
 CLAIMS["C20"] = (
     "Buffer-length contracts: Worker.decompress requests at most min(remaining, memory limit) bytes per step and every non-empty chunk is written out before the next request (proved for all sizes).",
-    "Peak RSS is a measurement, not a contract; decoders that ignore max_length are covered only through the assumed decoder contract; excluded parts are listed in the evidence.",
+    "Peak memory is a measurement, not a contract: the bounded memory-growth run (Python-level allocations of 320 / 640 MiB members, LZMA2 / ZStandard / Deflate) stands in for it and found FX25 / FX26 (ZStandard and Deflate decoders ignored max_length; repaired). Open finding F26: the Brotli and Deflate64 decoders still ignore max_length (a 771-byte Brotli archive makes extraction allocate 1 GiB). C-level encoder / decoder state is not traced.",
     "DESIGN.md 7 (C20)",
 )
 
 CLAIMS["C13"] = (
     "Sequential part of the property as contracts: Worker.extract_single never raises when an exception queue is given and queues every exception exactly once, otherwise propagates it; Worker.extract hands every selected folder to exactly one worker with the file *name* (own handle), the right member list and offsets, the exception queue and the skip flag, and consults the queue before returning normally.",
-    "Schedules (interleavings of workers, concurrent SevenZipFile objects) have no semantics in any verifier available here and are excluded from the claim; Thread/Process/Queue behave as their documented contracts (assumed). Known finding F05: with mp=True worker errors are lost (Process copies the queue).",
+    "Schedules (interleavings of workers, concurrent SevenZipFile objects) have no semantics in any verifier available here; a bounded schedule perturbation (first thread held back at mkdir / open / utime, output compared with the sequential result, damaged archives must raise) stands in, labelled bounded. Thread/Process/Queue behave as their documented contracts (assumed). Known finding F05: with mp=True worker errors are lost (Process copies the queue).",
     "DESIGN.md 7 (C13)",
 )
 
@@ -59,7 +59,7 @@ CLAIMS["C12"] = (
 
 CLAIMS["C03"] = (
     "Contracts on every function between a member name and a filesystem effect: canonical_path (no '..' survives below an absolute root, root kept), is_relative_to / is_path_valid (lexical containment against the cwd-joined destination), get_sanitized_output_path (result lexically inside the destination or a relative path without '..' for path=None), SevenZipFile._extract (every path registered with the worker, pre-created, re-timed or re-moded is such a result; the destination handed over is absolute), Worker._extract_single (every mkdir/open/touch/unlink/symlink_to acts on the registered path or its parent AFTER the resolved parent was checked against the resolved destination; a link is only created after its resolved target passed the same check).",
-    "The filesystem itself (what Path.resolve() returns, that mkdir/open act where the resolved path says) and pathlib's parser are assumed contracts; concurrent creation of links by parallel folder workers between check and use has no semantics in this family and is excluded; pre-existing links in the destination are outside the property's quantifier.",
+    "The filesystem itself (what Path.resolve() returns, that mkdir/open act where the resolved path says) and pathlib's parser are assumed contracts; concurrent creation of links by parallel folder workers between check and use has no semantics in this family and is excluded; pre-existing links in the destination are outside the property's quantifier. A BOUNDED stand-in (labelled bounded) runs the lexical gates on every name of up to 4 components over a small alphabet against 8 destinations with os.path.normpath + component-wise containment as the oracle (catches sibling-prefix confusions such as commonprefix).",
     "DESIGN.md 7 (C03)",
 )
 
@@ -73,25 +73,25 @@ CLAIMS["C02"] = (
 
 CLAIMS["C05"] = (
     'Termination (loop variants) and progress obligations proved per function of the read path: read_boolean/read_utf16 (bounded by count / MAX_LENGTH), read_uint64 and the fixed-width readers (strict progress), PackInfo._read (every count-driven loop runs at most once per consumed byte: post#work-bounded-by-input; streams without sizes are rejected), SubstreamsInfo._read (loop invariants), UnpackInfo._retrieve_coders_info and FilesInfo._read (each record confined to its declared size, padding skipped by exactly its size), Header._read (an encoded header is decoded at most once - no nesting), Worker.decompress (lexicographic variant: bytes to deliver, packed bytes left, stalls allowed), SevenZipFile._read_digest, AESDecompressor.__init__ (the key-derivation work factor taken from the archive is bounded by 2**24 rounds before the KDF runs).',
-    'Wall-clock/RSS bounds and crashes inside C extensions are not contracts. FilesInfo._read allocates one record per DECLARED file before reading any property (a 42-byte archive declaring 2**36 files): observed, not under a check (DESIGN.md 11.3). Folder._read is not under contract.',
+    'Wall-clock/RSS bounds and crashes inside C extensions are not contracts; a BOUNDED corpus of 16 hostile headers (counts of 2**36 / 2**40, self-referential encoded headers, ...) run under RLIMIT_AS = 1.5 GiB and a watchdog stands in for them, labelled bounded. It found FX24 (FilesInfo._read / SubstreamsInfo._read allocated per DECLARED count; repaired: counts are compared with remaining_size(), now a contract and two postconditions). Folder._read is not under contract.',
     'DESIGN.md 7 (C05), 11',
 )
 
 CLAIMS["C06"] = (
     "Reader conformance as contracts against the 7z format: header primitives for all encodings (C17 contracts), SignatureHeader._read, PackInfo._read (pack position, sizes, Digests structure with one CRC per DEFINED digest, END marker position, prefix-sum pack positions, for every count - ghost cut offsets over the input bytes), SubstreamsInfo._read (loop invariants over all folders / substreams: sizes from the Size record with the remainder rule, folders without streams, digest hand-out between folder-level CRCs and the record with the running record index pinned), UnpackInfo._retrieve_coders_info, FilesInfo._read (record walk) with _read_name / _read_times / _read_attributes (member k gets the k-th stored value, undefined stays undefined), Header._read, SevenZipFile._real_get_contents (header parsed only after its CRC matched; members appended in header order and to their folder's list under their own index; a member's digest is present exactly when its OWN defined flag is set; password flag from every folder), _get_fileinfo_sizes, ArchiveFileList (ids), Worker.extract / extract_single (every folder with members gets exactly one decoding task at afterheader + pack position + packpositions[i]).",
-    'Not under contract: Folder._read, UnpackInfo._read (outer part), StreamsInfo.read, SevenZipDecompressor.__init__ (chain selection), FilesInfo._read_start_pos (observed: its assert compares bytes with an int). The exit clauses of SubstreamsInfo._read that restate the invariants over the whole section are drafted but not discharged (disabled, DESIGN.md 11). The folder/stream arithmetic of _real_get_contents is covered by per-iteration trace obligations, not by one inductive invariant. Codec libraries and third-party writers are assumed to follow their contracts. Genuine defects found and repaired: FX11-FX16, FX18, FX19.',
+    'Not under contract: Folder._read, UnpackInfo._read (outer part), StreamsInfo.read, SevenZipDecompressor.__init__ (chain selection), FilesInfo._read_start_pos (observed: its assert compares bytes with an int). The exit clauses of SubstreamsInfo._read that restate the invariants over the whole section are drafted but not discharged (disabled, DESIGN.md 11). The folder/stream arithmetic of _real_get_contents is covered by per-iteration trace obligations, not by one inductive invariant. Two BOUNDED stand-ins (labelled bounded) exercise the junctions no contract covers: 3000 seeded MainStreamsInfo sections and 400 seeded whole archives written by an independent encoder / COPY-coder writer must be read back exactly as described. Codec libraries and third-party writers are assumed to follow their contracts. Genuine defects found and repaired: FX11-FX16, FX18, FX19, FX23 (folder CRC of a multi-member folder compared too early).',
     'DESIGN.md 7 (C06), 11',
 )
 
 CLAIMS["C08"] = (
     "Append as contracts on the real code: SubstreamsInfo.write (exact layout for every folder/stream count: NumUnpackStream record iff some folder differs from one, a size NUMBER for every substream except the last of its folder with the cursor over ALL substreams, Digests structure with one CRC per defined digest, END) and PackInfo.write proved byte-exactly with ghost cut offsets; UnpackInfo.write (section skeleton, every folder once, no extra records); FilesInfo writers (C07); Header.initialize in append mode adds exactly one folder at the end, bumps the folder count and appends a zero stream counter, touching nothing else; Worker._after_write appends one size/CRC/flag and increments the LAST folder's counter; Worker.archive archives exactly the member at the cursor and advances it by one; Worker.flush_archive records exactly one pack stream; Worker.__init__ starts the cursor behind the existing members; _prepare_append positions the file at afterheader + pack position + total packed size; the read side (PackInfo._read, SubstreamsInfo._read, FilesInfo readers).",
-    'BOUNDED stand-in (labelled bounded in the evidence, not counted as proved): every 2-session history with up to 2 members per session over file / zero-length file / directory / zero-length writestr plus 100 seeded 3-session histories is run on the real code each quick run (all 3-session histories in the thorough tier). Otherwise histories are not enumerated: each session is the same code under the same contracts and the member list after a session is old ++ new by these per-call contracts (written argument, DESIGN.md 7). Folder.write / Header.write / StreamsInfo.write are not under contract. Genuine defects found and repaired: FX11, FX12, FX15, FX16, FX17, FX19.',
+    'BOUNDED stand-in (labelled bounded in the evidence, not counted as proved): every 2-session history with up to 2 members per session over file / zero-length file / directory / zero-length writestr plus 100 seeded 3-session histories is run on the real code each quick run (all 3-session histories in the thorough tier). Otherwise histories are not enumerated: each session is the same code under the same contracts and the member list after a session is old ++ new by these per-call contracts (written argument, DESIGN.md 7). A second bounded stand-in re-serialises 3000 seeded stream sections with the real StreamsInfo.write and reads them back (found FX22: PackInfo.write indexed the pack CRCs by stream although they are kept per defined digest). Folder.write / StreamsInfo.write are not under contract. Genuine defects found and repaired: FX11, FX12, FX15, FX16, FX17, FX19, FX22.',
     'DESIGN.md 7 (C08), 11',
 )
 
 CLAIMS["C10"] = (
     "Listing functions as folds over the member list, proved for archives of any size: namelist/getnames return filename(member k) at position k; getinfo returns the first member whose name equals the query minus one trailing slash and raises KeyError exactly when no member has it; list() builds exactly one FileInfo per member, in order, from that member's own name and from the same uncompressed/crc32/is_directory fields that extraction enforces (C04/C09); ArchiveFile.crc32 is the stored digest whatever its value (0 included) and None only when absent; _is_solid is true exactly when some folder holds several members; needs_password() reports the flag that _real_get_contents computes from EVERY folder's coder chain.",
-    'Abstract mode (opaque ArchiveFile objects with stable attributes). archiveinfo()/get_methods_names are not under contract (Delta/Brotli missing from the method names and archiveinfo() on an empty archive: observed during design, not under a check).',
+    'Abstract mode (opaque ArchiveFile objects with stable attributes). The archive summary: archiveinfo() is under contract (total = sum of the members\' sizes, 0 without members; names / solid flag from the helpers; block count = folder count, 0 without data streams; fails only in stat or the name table), _get_method_names passes the coders of EVERY folder, the name tables of get_methods_names are a lemma over the literal tables (every method name has a place in the display order). The loops of get_methods_names (list of lists of dicts) are outside the engine: BOUNDED enumeration of coder arrangements, and listings of 400 archives from an independent writer, both labelled bounded. Genuine defects found and repaired: FX20 (Delta / Brotli dropped from the summary), FX21 (archiveinfo() failed on archives without data streams). archiveinfo() needs a file name (asserts on stream-opened archives): observed, not claimed.',
     'DESIGN.md 7 (C10), 11',
 )
 
@@ -109,7 +109,7 @@ CLAIMS["C14"] = (
 
 CLAIMS["C18"] = (
     "Ghost event-trace contracts proved on the sequential code: per processed member exactly one start event first and one end event last carrying the member's name and size (Worker._extract_single); update events carry the bytes decoded since the last update and sum to the member size (Worker.decompress loop invariant); members that are only decoded to be skipped report nothing (no reporter queue on the _check path); pre first / post last (_extract); close() returns only after the reporter finished.",
-    'Interleavings of worker threads with the reporter thread and the 1 s join timeout are outside this family (no thread semantics in any verifier available here) and are excluded from the claim.',
+    'Interleavings of worker threads with the reporter thread and the 1 s join timeout are outside this family (no thread semantics in any verifier available here) and are excluded from the claim. A BOUNDED stand-in (labelled bounded) extracts 28 archives with a callback under a controlled clock (time.time / monotonic advance by a fixed step per call, so the pacing fires inside a member) and checks the whole account against the statement.',
     'DESIGN.md 7 (C18), 11',
 )
 
@@ -120,4 +120,13 @@ CLAIMS["C01"] = (
 )
 
 TECH_EXTRA["C02"] = "; the attribute-word and timestamp obligations are VCs generated from the AST by pyvc/bvexec.py (bit-vectors) and pyvc/floatvc.py (real arithmetic with a stated binary64 rounding-error model), discharged by z3"
-TECH_EXTRA["C08"] = "; plus one BOUNDED stand-in (create/append histories on the real code, labelled bounded, never counted as proved)"
+TECH_EXTRA["C08"] = "; plus two BOUNDED stand-ins on the real code (create/append histories; stream sections rewritten and read back against an independent encoder), labelled bounded, never counted as proved"
+TECH_EXTRA["C06"] = "; plus two BOUNDED stand-ins on the real code (stream sections and whole archives written by an independent encoder / COPY-coder writer), labelled bounded, never counted as proved"
+TECH_EXTRA["C03"] = "; plus one BOUNDED stand-in (exhaustive small path names against an os.path oracle), labelled bounded"
+TECH_EXTRA["C16"] = "; plus one BOUNDED stand-in (exhaustive small archive names against a lexical oracle), labelled bounded"
+TECH_EXTRA["C04"] = "; plus one BOUNDED stand-in (one altered byte in archives from an independent writer), labelled bounded"
+TECH_EXTRA["C05"] = "; plus one BOUNDED stand-in (a fixed corpus of hostile headers under an address-space limit and a watchdog), labelled bounded"
+TECH_EXTRA["C10"] = "; the name tables of get_methods_names are a lemma decided by evaluating the literal tables of the source; plus two BOUNDED stand-ins (listing of archives from an independent writer, enumeration of coder arrangements), labelled bounded"
+TECH_EXTRA["C13"] = "; plus one BOUNDED stand-in (thread-parallel extraction with the first thread held back at mkdir/open/utime), labelled bounded - schedules themselves have no semantics in this family"
+TECH_EXTRA["C18"] = "; plus one BOUNDED stand-in (callback account under a controlled clock), labelled bounded"
+TECH_EXTRA["C20"] = "; plus one BOUNDED stand-in (tracemalloc peak for 320 / 640 MiB members must not grow with the member), labelled bounded - a measurement, not a proof"
